@@ -320,7 +320,7 @@ func checkMetafile(st *Stats, label string, p *L.Project) bool {
 	for _, d := range dups {
 		scenario := "duplicate-key"
 		if strings.Contains(d, "/outputs/") && strings.Contains(d, "/inputs/") && strings.HasSuffix(d, ".css") {
-			scenario = "known:css-file-imported-more-than-once-in-one-output"
+			scenario = "css-file-imported-more-than-once-in-one-output"
 		}
 		fail("metafile-has-duplicate-key", scenario, strings.Replace(d, dir, "<dir>", -1), "every key once")
 	}
@@ -555,8 +555,11 @@ func checkMetafile(st *Stats, label string, p *L.Project) bool {
 				if strings.HasSuffix(e.Path, "inject0.js") {
 					// imports of the injected file are implicit: not part of the expectation
 					if e.External {
-						fail("metafile-input-lists-injected-file-as-external-import", "known:inject-file-listed-as-external-absolute-import",
+						fail("metafile-input-lists-injected-file-as-external-import", "inject-file-listed-as-external-absolute-import",
 							map[string]interface{}{"input": name, "import": strings.Replace(e.String(), dir, "<dir>", -1)}, "no import, or the bundled file inject0.js (not external)")
+					}
+					if !e.External && e.Path != "inject0.js" {
+						fail("metafile-input-lists-injected-file-under-wrong-path", "inject-file-path", map[string]interface{}{"input": name, "import": strings.Replace(e.String(), dir, "<dir>", -1)}, "inject0.js")
 					}
 					continue
 				}
@@ -667,12 +670,20 @@ func corpusKnown(st *Stats) {
 	defer os.RemoveAll(dir)
 	L.WriteTree(dir, nil, p.Render())
 	b := L.Build(dir, &p.Opt)
-	_, dups, _ := parseJSON(b.Metafile)
-	st.Note("corpus", "css-imported-twice", len(dups) > 0)
+	// (H, fixed by ea1db64, must pass) one entry for a.css covering both copies
+	root, dups, _ := parseJSON(b.Metafile)
+	st.Note("corpus", "css-imported-twice", true)
+	in := map[string]interface{}{"scenario": "css-file-imported-more-than-once-in-one-output", "label": "corpus", "files": p.Extra, "metafile": b.Metafile}
 	for _, d := range dups {
-		st.Fail("metafile-has-duplicate-key", map[string]interface{}{"scenario": "css-file-imported-more-than-once-in-one-output", "label": "corpus", "files": p.Extra, "metafile": b.Metafile}, d, "every key once")
-		break
+		st.Fail("metafile-has-duplicate-key", in, d, "every key once")
+		return
 	}
+	if root != nil {
+		if a := root.get("outputs").get("out/e.css").get("inputs").get("a.css"); a == nil || int(a.get("bytesInOutput").num) != 91 {
+			st.Fail("metafile-css-input-bytes-wrong", in, a, "a.css: bytesInOutput 91 (46 + 45)")
+		}
+	}
+	collectDoc(st, "corpus-css-twice", b.Metafile, true)
 }
 
 func corpusInject(st *Stats) {
